@@ -140,7 +140,7 @@ func (a *Analysis) CheckC01(rep *Report) {
 			i, d := sameShape(tl.DecMain.Layout, pl.Layout, false)
 			rep.Ob("M1-decode-paths-agree", ct.Name+"["+pl.Conds+"]", i < 0, a.P.Pos(ct.Decode.Pos()), fmt.Sprintf("decode paths disagree at field %d: %s", i, d))
 		}
-		rej := a.spuriousRejections(tl.R.DecPaths)
+		rej := a.spuriousRejections(tl.R.DecPaths, false)
 		rep.Ob("M6-decoder-rejects-only-truncation", ct.Name, len(rej) == 0, a.P.Pos(ct.Decode.Pos()),
 			"Decode can return an error although every read succeeded and the discriminator is known – it refuses bytes the encoder may produce: "+strings.Join(rej, "; "))
 		enc, dec := tl.EncMain.Layout, tl.DecMain.Layout
@@ -406,6 +406,22 @@ func (a *Analysis) CheckC02(rep *Report) {
 	sort.Strings(missing)
 	for _, m := range missing {
 		rep.Ob("G2-schema-type-present", m, false, "-", "type of the pinned schema has no Encode/Decode pair in the tree")
+	}
+	// G4: the schema's interpreter writes the computed fields with their correct values (the body's length, the
+	// checksum of the frame): whether the frames compute and place them correctly is what C04 and C05 decide – a frame
+	// that fails there differs from the interpreter byte for byte on some value or buffer state
+	for _, sub := range []struct {
+		id  string
+		run func(*Report)
+	}{{"C04", a.CheckC04}, {"C05", a.CheckC05}} {
+		scratch := NewReport(sub.id, "other", "quick", 0)
+		sub.run(scratch)
+		for _, v := range scratch.Violations {
+			rep.Ob("G4-computed-fields-verified-by-"+sub.id, v.Key, false, v.Pos, "a field the schema computes does not pass "+sub.id+": "+v.Msg)
+		}
+		if len(scratch.Violations) == 0 {
+			rep.Ob("G4-computed-fields-verified-by-"+sub.id, "all-frames", true, "", "")
+		}
 	}
 	rep.Floor("codec_types", len(a.U.Types), len(g.Types))
 	rep.Notes = append(rep.Notes, "PROTO_DSL names recorded when the table was frozen (informational only): "+fmt.Sprint(g.Schemas))
